@@ -49,6 +49,13 @@ type IfaceX struct {
 	Box *Val
 }
 
+// IfaceBoundX records that an interface value of unknown dynamic type was
+// converted from a value of the interface type Static (so its dynamic type
+// implements Static).
+type IfaceBoundX struct {
+	Static types.Type
+}
+
 // FuncX is a statically known function value (closure).
 type FuncX struct {
 	Fn       *ssa.Function
